@@ -7,7 +7,7 @@ States  = {RKS, UKS} x density fitting x feature family (semilocal GGA / meta-GG
 Oracle  = with grid_response=True: analytic force component vs Richardson-extrapolated central
           differences of converged SCF energies at displaced geometries (delta = 2e-3, 1e-3 Bohr),
           1e-6 Ha/Bohr; sum over atoms of the forces = 0 and zero torque to 1e-7;
-          with grid_response=False: gross-error bound on the coarse discretisation (6e-2), and in the thorough
+          with grid_response=False: bound on the coarse discretisation (2e-2), and in the thorough
           tier agreement to 1.5e-3 on a refined discretisation (grid and auxiliary expansion); unsupported combinations (SDMX, fractional-Laplacian
           features, several density matrices) must raise NotImplementedError.
 """
@@ -53,6 +53,17 @@ def initial_cases(tier, seed):
         for ia, x in itertools.product(range(natm), range(3)):
             cases.append(dict(st, kind="fd", atom=ia, comp=x, seed=seed))
         cases.append(dict(st, kind="sumrule", seed=seed, refine=(not quick and st["mol"] == "LiH")))
+    # exact relations that hold for BOTH gradient variants (with and without grid response), whatever the discretisation:
+    # exchanging the spin labels of a polarised solution leaves the forces unchanged; a closed-shell solution evaluated
+    # through the unrestricted gradient gives the restricted forces
+    spin_states = [("NH2", "VIJ", "npa", "onsite_direct"), ("NH2", "VK", "npa", "onsite_spline"), ("NH2", "SL", "npa", "onsite_direct")]
+    if not quick:
+        spin_states += [("NH2", "VJ", "np", "onsite_direct"), ("NH2", "VIJ", "np", "onsite_spline"), ("NH2", "SL", "np", "onsite_direct")]
+    for mol, fam, sl, interp in spin_states:
+        for df in ((False,) if quick else (False, True)):
+            cases.append({"kind": "spinsym", "mol": mol, "nspin": 2, "fam": fam, "sl": sl, "interp": interp, "df": df, "seed": seed})
+    for fam, sl, interp in (("VIJ", "npa", "onsite_direct"), ("VK", "npa", "onsite_spline")) + ((("VJ", "np", "onsite_direct"),) if not quick else ()):
+        cases.append({"kind": "closedshell", "mol": "LiH", "nspin": 1, "fam": fam, "sl": sl, "interp": interp, "df": False, "seed": seed})
     for fam in ("SDMX1", "VIJ+SDMX1"):
         for nspin in (1, 2):
             cases.append({"kind": "unsupported", "mol": "LiH", "nspin": nspin, "fam": fam, "sl": "npa", "interp": "onsite_direct", "df": False, "seed": seed})
@@ -159,14 +170,14 @@ def run_sumrule(case):
     s2 = np.abs(an2.sum(0)).max()
     # "to the accuracy allowed by the fixed-grid approximation".  That accuracy is a property of the discretisation
     # (integration grid AND, for nonlocal features, the atom-centred auxiliary expansion whose partition moves with
-    # the atoms), not of PySCF's PBE on the same grid: measured over seeds 0-3 on the coarse settings used here the
-    # two gradients differ by <= 2.2e-2 and the fixed-grid forces sum to <= 4.1e-2, and both fall to <= 6.5e-4 /
-    # 7.4e-4 at (50,194) / lmax 8 / beta 1.6 (version k excepted: 3.5e-3, not converged at affordable settings).
-    # Quick tier: gross-error bound on the coarse settings.  Thorough tier: the refined discretisation must reach 1.5e-3.
-    if d > 6e-2:
-        fails.append({"key": "noresponse-gradient;" + ck, "msg": "gradient without grid response differs from the full-response gradient by %.3e on the coarse discretisation (measured <= 2.2e-2)" % d})
-    if s2 > 1.2e-1:
-        fails.append({"key": "noresponse-sumrule;" + ck, "msg": "fixed-grid forces sum to %s on the coarse discretisation (measured <= 4.1e-2)" % an2.sum(0)})
+    # the atoms), not of PySCF's PBE on the same grid: measured over seeds 0, 1, 3 on the coarse settings used here the
+    # two gradients differ by <= 6.9e-3 and the fixed-grid forces sum to <= 5.9e-3 (semilocal part alone: 1e-3).
+    # Quick tier: bound 2e-2 on the coarse settings.  Thorough tier: a refined discretisation must reach 1.5e-3.
+    # The sharp statements about the no-response variant are the spin relations of run_spinsym / run_closedshell.
+    if d > 2e-2:
+        fails.append({"key": "noresponse-gradient;" + ck, "msg": "gradient without grid response differs from the full-response gradient by %.3e on the coarse discretisation (measured <= 6.9e-3)" % d})
+    if s2 > 2e-2:
+        fails.append({"key": "noresponse-sumrule;" + ck, "msg": "fixed-grid forces sum to %s on the coarse discretisation (measured <= 5.9e-3)" % an2.sum(0)})
     evals = 3
     info = {"sum": float(s), "noresp_diff": float(d), "noresp_sum": float(s2)}
     if case.get("refine") and case["fam"] != "VK":
@@ -202,6 +213,66 @@ def run_sumrule(case):
     return {"fail": fails, "evals": evals, "outcome": [ck, float("%.7f" % np.abs(an).sum())], "info": info}
 
 
+def _grads(ks):
+    out = []
+    for gr in (True, False):
+        g = ks.nuc_grad_method()
+        g.verbose = 0
+        g.grid_response = gr
+        out.append(g.kernel())
+    return out
+
+
+def run_spinsym(case):
+    import copy
+
+    fails = []
+    ck = ";".join("%s=%s" % (k, case[k]) for k in ("mol", "nspin", "fam", "sl", "interp", "df"))
+    mol, ks, e0 = _ks(case, _ref_coords(case))
+    if not ks.converged:
+        return {"fail": [{"key": "harness-scf-not-converged;" + ck, "confirm": False, "msg": "SCF did not converge"}], "evals": 1, "outcome": "noconv"}
+    g1 = _grads(ks)
+    # the same solution with the spin labels exchanged (no new SCF: orbitals, occupations and energies are swapped)
+    ks.mo_coeff = np.array([ks.mo_coeff[1], ks.mo_coeff[0]])
+    ks.mo_occ = np.array([ks.mo_occ[1], ks.mo_occ[0]])
+    ks.mo_energy = np.array([ks.mo_energy[1], ks.mo_energy[0]])
+    g2 = _grads(ks)
+    worst = 0.0
+    for name, a, b in (("with grid response", g1[0], g2[0]), ("without grid response", g1[1], g2[1])):
+        d = float(np.abs(a - b).max())
+        worst = max(worst, d)
+        if d > 1e-8:
+            fails.append({"key": "spin-swap-forces;%s;%s" % (name.split()[0], ck), "msg": "exchanging the spin channels changes the forces %s by %.3e Ha/Bohr" % (name, d)})
+    pol = float(np.abs(g1[0]).max())
+    return {"fail": fails, "evals": 5, "outcome": ["spinsym", ck, float("%.7f" % pol)], "info": {"swap_diff": worst}}
+
+
+def run_closedshell(case):
+    fails = []
+    ck = ";".join("%s=%s" % (k, case[k]) for k in ("mol", "fam", "sl", "interp", "df"))
+    mol, ks, e0 = _ks(case, _ref_coords(case))
+    if not ks.converged:
+        return {"fail": [{"key": "harness-scf-not-converged;" + ck, "confirm": False, "msg": "SCF did not converge"}], "evals": 1, "outcome": "noconv"}
+    gr = _grads(ks)
+    c2 = dict(case, nspin=2)
+    dm = ks.make_rdm1()
+    mol2, ku, _ = _ks(c2, _ref_coords(case), dm0=np.array([0.5 * dm, 0.5 * dm]))
+    if not ku.converged:
+        return {"fail": [{"key": "harness-scf-not-converged;" + ck, "confirm": False, "msg": "unrestricted SCF did not converge"}], "evals": 2, "outcome": "noconv"}
+    # evaluate the unrestricted gradient AT the restricted solution
+    ku.mo_coeff = np.array([ks.mo_coeff, ks.mo_coeff])
+    ku.mo_occ = np.array([0.5 * ks.mo_occ, 0.5 * ks.mo_occ])
+    ku.mo_energy = np.array([ks.mo_energy, ks.mo_energy])
+    gu = _grads(ku)
+    worst = 0.0
+    for name, a, b in (("with grid response", gr[0], gu[0]), ("without grid response", gr[1], gu[1])):
+        d = float(np.abs(a - b).max())
+        worst = max(worst, d)
+        if d > 1e-8:
+            fails.append({"key": "closed-shell-forces;%s;%s" % (name.split()[0], ck), "msg": "closed-shell forces through the unrestricted gradient differ from the restricted ones %s by %.3e Ha/Bohr" % (name, d)})
+    return {"fail": fails, "evals": 6, "outcome": ["closedshell", ck, float("%.7f" % np.abs(gr[0]).max())], "info": {"diff": worst}}
+
+
 def run_unsupported(case):
     fails = []
     ck = "fam=%s;nspin=%d" % (case["fam"], case["nspin"])
@@ -224,4 +295,8 @@ def run_case(case):
         return run_fd(case)
     if case["kind"] == "sumrule":
         return run_sumrule(case)
+    if case["kind"] == "spinsym":
+        return run_spinsym(case)
+    if case["kind"] == "closedshell":
+        return run_closedshell(case)
     return run_unsupported(case)
